@@ -185,7 +185,7 @@ def sanitize_cascade(framework, cascade, fallback_used: bool = False) -> tuple:
             cascade_dict[stage.iloc[0]] = [x.strip() for x in stage.iloc[1].split(",")]  # Split the name of the stage and the constituents
     else:
         cascade_name = None
-        cascade_dict = cascade
+        cascade_dict = sc.odict((stage, sc.promotetolist(constituents)) for stage, constituents in cascade.items())  # A stage with a single constituent may be given as a bare string
 
     pop_type = validate_cascade(framework, cascade_dict, fallback_used=fallback_used)  # Check that the requested cascade dictionary is valid
 
